@@ -56,6 +56,14 @@ pub fn gen_graph_project(rng: &mut Rng, tier: Tier, ptr: usize) -> Project {
         p_bases: *rng.pick(&[0usize, 20, 50]),
         extern_values: rng.chance(1, 2),
     };
+    // Worlds that mention generated `<T>Vftable` names are kept free of other problems: every
+    // name exists, nothing is cyclic, the expected verdict is success.
+    let mention_generated = rng.chance(1, 6);
+    if mention_generated {
+        cfg.n_undefined = 0;
+        cfg.n_cycles = 0;
+        cfg.p_funcs = cfg.p_funcs.max(70);
+    }
     // Swarm: only a random subset of the positions is enabled per run.
     for p in positions {
         if rng.chance(1, 2) {
@@ -350,9 +358,75 @@ pub fn gen_graph_project(rng: &mut Rng, tier: Tier, ptr: usize) -> Project {
         }
     }
 
+    if mention_generated {
+        let owners: Vec<usize> = (0..p.items.len())
+            .filter(|i| matches!(&p.items[*i].kind, ItemKind::Type { vftable: Some(_), .. }))
+            .collect();
+        for _ in 0..rng.range(1, 3) {
+            if owners.is_empty() {
+                break;
+            }
+            let t = *rng.pick(&owners);
+            let tm = p.items[t].module;
+            let vname = format!("{}Vftable", p.items[t].name);
+            let vty = Ty::Name(vname.clone());
+            let m = rng.below(cfg.modules);
+            if m != tm {
+                let line = if rng.chance(1, 2) {
+                    format!("use {}::{};", p.modules[tm].item_path(), vname)
+                } else {
+                    format!("use {};", p.modules[tm].item_path())
+                };
+                p.modules[m].extra_uses.push(line);
+            }
+            let idx = p.items.len();
+            let (fields, impl_funcs) = match rng.below(4) {
+                0 => (vec![crate::props::c09::field("table", vty.cptr())], vec![]),
+                1 => (vec![crate::props::c09::field("table", vty)], vec![]),
+                _ => {
+                    fn_counter += 1;
+                    (
+                        vec![],
+                        vec![Func {
+                            vis: true,
+                            name: format!("f{fn_counter}"),
+                            recv: Some(false),
+                            args: vec![("table".into(), vty.clone().cptr())],
+                            ret: rng.chance(1, 2).then(|| vty.clone().mptr()),
+                            address: Some(0x8000 + fn_counter * 16),
+                            index: None,
+                            cc: None,
+                            doc: None,
+                        }],
+                    )
+                }
+            };
+            p.items.push(Item {
+                module: m,
+                name: format!("T{idx}"),
+                vis: true,
+                doc: None,
+                kind: ItemKind::Type {
+                    fields,
+                    vftable: None,
+                    size: None,
+                    align: None,
+                    packed: true,
+                    flags: Flags::default(),
+                    singleton: None,
+                    impl_funcs,
+                    semicolon_form: false,
+                },
+                csize: 0,
+                calign: 1,
+                vslots: None,
+            });
+        }
+    }
+
     // A by-value cycle whose members all *declare* their layout (size plus packed/align): the
     // numbers are mutually consistent, the structure is still impossible.
-    if rng.chance(1, 8) {
+    if !mention_generated && rng.chance(1, 8) {
         let len = rng.range(1, 3);
         let size = ptr * rng.range(1, 4);
         let first = p.items.len();
